@@ -26,13 +26,17 @@
 (*              objects                                                    *)
 (*   the public operations built from them (AlgOp).                        *)
 (* The Alg layer breaks the frame on two routes, the named deviations:     *)
-(*   "arg"          parse_object adapts the caller's containers without a  *)
-(*                  copy on entry (_core.py:505, 1327-1378)                *)
+(*   "arg"          (only with CopyOnEntry = FALSE, the design before fix  *)
+(*                  3d23e94) parse_object adapts the caller's containers   *)
+(*                  without a copy on entry (_core.py:505, 1327-1378)      *)
 (*   "below-tuple"  validate / dump / instantiate_classes work on a        *)
 (*                  clone, but the clone shares tuples, so a list or dict  *)
 (*                  inside a tuple is the caller's                         *)
 (***************************************************************************)
 EXTENDS Naturals, Sequences, FiniteSets, TLC
+
+CONSTANT CopyOnEntry    \* TRUE: the tree since fix: commit 3d23e94 - parse_object applies its actions to recreate_branches(cfg_obj)
+                        \* (_core.py:509); FALSE: the design before it (the caller's containers were adapted in place, route "arg")
 
 Sc(v, y) == [k |-> "s", v |-> v, y |-> y]
 Rf(id)   == [k |-> "r", v |-> id, y |-> ""]
@@ -242,8 +246,10 @@ ApplyActions(h, arg, keys, n) ==
 Out(h, ok, ret) == [h |-> h, ok |-> ok, ret |-> ret]
 
 AlgOp(op, h, arg, keys, n) ==
-  CASE op = "parse_object" ->                                         \* _core.py:505 _apply_actions(cfg_obj): NO copy on entry
-         LET r == ApplyActions(h, arg, keys, n) IN Out(r.h, r.ok, None)
+  CASE op = "parse_object" ->                                         \* _core.py:509 _apply_actions(recreate_branches(cfg_obj)) since fix 3d23e94;
+         IF CopyOnEntry THEN LET cl == Clone(h, arg, n)                  \*   the copy shares tuples, so below a tuple of the ARGUMENT it is still the caller's
+                                 r == ApplyActions(cl.h, cl.c, keys, cl.n) IN Out(r.h, r.ok, None)
+         ELSE LET r == ApplyActions(h, arg, keys, n) IN Out(r.h, r.ok, None)  \* before the fix: NO copy on entry
     [] op = "validate" ->                                             \* :1091 cfg.clone(), :1111-1129 check_values
          LET cl == Clone(h, arg, n)
              r == OverKeys(cl.h, cl.c, Ordered(keys, Deep), 1, "parse", FALSE, cl.n) IN Out(r.h, r.ok, None)
@@ -343,12 +349,14 @@ AsAlg(hpre, roots, hobs, halg) ==
         ELSE MatchSeq(hobs, halg, hobs[id].c, halg[id].c, DOMAIN hpre)
 
 \* the route by which the Alg layer reaches the caller's objects (named deviations):
-\*   arg                    parse_object adapts the containers it is given, no copy on entry
+\*   arg                    (CopyOnEntry = FALSE only) parse_object adapts the containers it is given, no copy on entry
+\*   below-tuple/argument   parse_object adapts a copy of its argument that shares tuples with it (and, like every parse,
+\*                          a configuration that shares tuples with the declared defaults)
 \*   below-tuple/check      validate / instantiate_classes adapt a clone that shares tuples with the caller's configuration
 \*   below-tuple/serialise  dump / save serialise such a clone in place
 \*   below-tuple/defaults   every parse (and get_defaults / format_help with a default config file) validates a
 \*                          configuration that shares tuples with the parser's declared defaults (or with namespace=)
-Route(op) == IF op = "parse_object" THEN "arg"
+Route(op) == IF op = "parse_object" THEN (IF CopyOnEntry THEN "below-tuple/argument" ELSE "arg")
              ELSE IF op \in {"validate", "instantiate_classes"} THEN "below-tuple/check"
              ELSE IF op \in {"dump", "save", "save1"} THEN "below-tuple/serialise"
              ELSE "below-tuple/defaults"
